@@ -443,7 +443,14 @@ impl PartialEq for Value {
             (Value::String(a), Value::String(b)) => a == b,
             (Value::Bool(a), Value::Bool(b)) => a == b,
             (Value::Null, Value::Null) => true,
-            (Value::Vector(a), Value::Vector(b)) => a == b,
+            // Bitwise element equality, consistent with `Hash` and `Ord` below
+            // (IEEE `==` would make a NaN element unequal to itself and +0.0 == -0.0).
+            (Value::Vector(a), Value::Vector(b)) => {
+                a.len() == b.len()
+                    && a.iter()
+                        .zip(b.iter())
+                        .all(|(x, y)| x.to_bits() == y.to_bits())
+            }
             (Value::VectorInt8(a), Value::VectorInt8(b)) => a == b,
             (Value::Timestamp(a), Value::Timestamp(b)) => a == b,
             _ => false,
@@ -493,7 +500,9 @@ impl Ord for Value {
         match (self, other) {
             (Value::Int32(a), Value::Int32(b)) => a.cmp(b),
             (Value::Int64(a), Value::Int64(b)) => a.cmp(b),
-            (Value::Float64(a), Value::Float64(b)) => a.partial_cmp(b).unwrap_or(Ordering::Equal),
+            // IEEE total order: a total order that agrees with the bitwise `==`
+            // above (NaN and -0.0 included), as sorting and dedup require.
+            (Value::Float64(a), Value::Float64(b)) => a.total_cmp(b),
             (Value::String(a), Value::String(b)) => a.cmp(b),
             (Value::Bool(a), Value::Bool(b)) => a.cmp(b),
             (Value::Null, Value::Null) => Ordering::Equal,
